@@ -381,6 +381,27 @@ def run(ch: Checker) -> None:
         ch.check(bad13 is None and np13 > 0, 'C07.13', wt, 'teardown from the write hook', 'True only from failure handlers / delegates (%d path(s))' % np13, bad13[0] if bad13 else 'no return path', witness=bad13[1] if bad13 else None)
     if n13 == 0:
         raise AnalysisError('anchor vanished: no write_to_descriptors implementation found')
+    ch.rule('C07.15', 'an upstream that ends its TLS stream without close_notify is an end-of-stream, not an exception: nothing switches suppress_ragged_eofs off on a wrapped socket (expected 0 sites) -- the read handlers of the '
+                      'reverse proxy and of the tunnel expect recv() to return nothing at EOF; an SSLEOFError escapes handle_events and the teardown that follows drops what is still queued for the client', 1)
+    n15 = 0
+    for fn15 in prog.all_functions('proxy', include_inlined=True):
+        if fn15.module.name.startswith('proxy.testing'):
+            continue
+        for x15 in walk_no_nested(fn15.node):
+            hit15 = None
+            if isinstance(x15, ast.Assign) and any(isinstance(t_, ast.Attribute) and t_.attr == 'suppress_ragged_eofs' for t_ in x15.targets) and not (isinstance(x15.value, ast.Constant) and x15.value.value is True):
+                hit15 = x15
+            if isinstance(x15, ast.Call) and any(k_.arg == 'suppress_ragged_eofs' and not (isinstance(k_.value, ast.Constant) and k_.value.value is True) for k_ in x15.keywords):
+                hit15 = x15
+            if hit15 is not None:
+                n15 += 1
+                ch.bad('C07.15', fn15, hit15, '%s switches suppress_ragged_eofs off: a peer that closes TCP without a TLS close_notify now makes recv() raise ssl.SSLEOFError instead of returning end-of-stream; '
+                       'the reverse-proxy / tunnel read handlers do not expect it, it escapes handle_events, and the output still queued for the client is discarded with the connection' % fn15.qualname)
+    probe15 = ast.parse('s.suppress_ragged_eofs = False').body[0]
+    assert isinstance(probe15, ast.Assign) and probe15.targets[0].attr == 'suppress_ragged_eofs'      # type: ignore[attr-defined]
+    if n15 == 0:
+        ch.ok('C07.15', None, 'suppress_ragged_eofs', 'no TLS socket has its end-of-stream handling changed (matcher verified on a built-in example)', module_rel='proxy/')
+    ch.import_rules('C17', {'C17.3': 'C07.14'}, 'queued output is flushed only if write readiness reaches the handler whenever the socket is writable, also while it is readable')
     ch.import_rules('C10', {'C10.2': 'C07.10'}, 'threaded mode flushes pending output in shutdown() through the per-connection selector; descriptors left registered by an exceptional exit of _run_once make that flush fail before it wrote anything')
 
     # ---------------- C07.5 / C07.6 (shared)
